@@ -76,27 +76,38 @@ def make_tebd(start_mps=None, start_step=0, start_time=0.0):
                         start_time=start_time, start_step=start_step, dynamics_sites=[0, 1, (1, 2)])
 
 
-def run_history(kind, targets, counter=None):
-    """returns (labels as step indices, list of state arrays) after the calls; Boom propagates"""
+def run_history(kind, targets, counter=None, observe=False):
+    """returns (labels as step indices, list of state arrays) after the calls; Boom propagates.
+    observe: call the object's read-only queries between the compute calls (they must not change anything)"""
     if kind == "tempo":
         obj = make_tempo(counter)
         for t in targets:
             quiet(obj.compute, t * DT, progress_type="silent")
+            if observe:
+                d0 = obj.get_dynamics()
+                _ = (list(d0.times), [np.array(x) for x in d0.states], str(obj))
         d = obj.get_dynamics()
         return [int(round(x / DT)) for x in d.times], [np.array(s) for s in d.states], obj
     if kind == "meanfield":
         obj = make_mf(counter)
         for t in targets:
             quiet(obj.compute, t * DT, progress_type="silent")
+            if observe:
+                d0 = obj.get_dynamics()
+                _ = (list(d0.times), list(d0.fields), [np.array(x) for x in d0.system_dynamics[0].states])
         d = obj.get_dynamics()
         sd = d.system_dynamics[0]
         return [int(round(x / DT)) for x in d.times], [np.append(np.array(s).reshape(-1), f) for s, f in zip(sd.states, d.fields)], obj
     obj = make_tebd()
     for t in targets:
         quiet(obj.compute, t, progress_type="silent")
+        if observe:
+            _ = (obj.step, obj.time(obj.step), obj.get_results()["norm"], obj.get_current_density_matrix(0),
+                 obj.get_current_density_matrix((1, 2)), obj.get_augmented_mps(), obj.get_current_density_matrix(2))
     r = obj.get_results()
     dyn = r["dynamics"]
     states = [np.concatenate([np.array(dyn[s].states[i]).reshape(-1) for s in dyn]) for i in range(len(r["time"]))]
+    states = [np.append(x, r["norm"][i]) for i, x in enumerate(states)]
     return [int(round(x / DT)) for x in r["time"]], states, obj
 
 
@@ -117,14 +128,25 @@ def run(chk):
         for T in range(tmax + 1):
             ref[(kind, T)] = run_history(kind, [T])[:2]
         for h in hs:
-            labels, states, _ = run_history(kind, list(h))
+            # half of the histories with the object's read-only queries between the calls (erased in the model: no-ops)
+            observe = h in ((2, 4), (1, 3), (2,)) or rng.random() < 0.5
+            info = {"driver": kind, "targets": list(h), "read_only_queries_between_calls": observe}
             T = max(h)
             chk.search_cases += 1
+            try:
+                labels, states, _ = run_history(kind, list(h), observe=observe)
+            except Exception as ex:
+                chk.fail("history-raises", f"{kind}: compute targets {list(h)}" + (" with read-only queries between the calls" if observe else "")
+                         + f" raise {ex!r} (a single compute to {T} does not)", info)
+                continue
             chk.count(kind)
-            info = {"driver": kind, "targets": list(h)}
+            if observe:
+                chk.count(kind + "_with_queries_between_calls")
             rl, rs = ref[(kind, T)]
             if labels != rl or not same(states, rs):
-                chk.fail("split-differs", f"{kind}: compute targets {list(h)} leave dynamics different from a single compute to {T}", info)
+                chk.fail("split-differs", f"{kind}: compute targets {list(h)}" + (" with read-only queries (get_dynamics / get_results / "
+                         "get_current_density_matrix / get_augmented_mps) between the calls" if observe else "")
+                         + f" leave dynamics different from a single compute to {T}", info)
             exprs.append("let s := fold_left (fun s t => compute (list nat) [] (fun l k => l ++ [k]) t s) "
                          f"{coq_list([str(t) for t in h])} (fresh (list nat) []) in cur _ s :: map fst (dyn _ s)")
             expected.append([T] + labels)
